@@ -604,6 +604,26 @@ def same_function_by_points(drv, before, after):
     return None
 
 
+def rank(rows):
+    """exact rank of a list of rows of Fractions (Gauss-Jordan)"""
+    rows = [list(r) for r in rows]
+    rk, col = 0, 0
+    ncols = len(rows[0]) if rows else 0
+    while rk < len(rows) and col < ncols:
+        piv = next((i for i in range(rk, len(rows)) if rows[i][col] != 0), None)
+        if piv is None:
+            col += 1
+            continue
+        rows[rk], rows[piv] = rows[piv], rows[rk]
+        for i in range(len(rows)):
+            if i != rk and rows[i][col] != 0:
+                f = rows[i][col] / rows[rk][col]
+                rows[i] = [a - f * b for a, b in zip(rows[i], rows[rk])]
+        rk += 1
+        col += 1
+    return rk
+
+
 def l3(rec, name):
     rec.count("L3", "decided")
     rec.count("L3oracles", name)
